@@ -530,6 +530,9 @@ func (s *Sched) enabledTransitions() []transition {
 					case len(h.ch.buf) < h.ch.cap:
 						ts = append(ts, transition{a: t, ac: h.ci, kind: trBufSend})
 						anyReady = true
+					case h.ch.cap > 0:
+						// a FULL buffered channel: the sender waits until a receiver has taken an item out of
+						// the buffer. (No hand-over to a parked receiver: it would overtake the buffered items.)
 					default:
 						for _, r := range parked {
 							if r == t {
